@@ -127,6 +127,7 @@ MODEL_MUTANTS = [
     ('DlisModel.tla', 'ELSE reg\' = reg1 /\\ items\' = items /\\ view\' = view', 'ELSE reg\' = reg1 /\\ items\' = items /\\ view\' = ViewWith(lf, key)', 'DlisModel.tla', 'MC_DlisModel_quick.cfg', 'RejectedIsNoOp'),
     ('DlisModel.tla', 'hc\' = [flag |-> hc.stack[Len(hc.stack)], stack', 'hc\' = [flag |-> (IF byexc THEN TRUE ELSE hc.stack[Len(hc.stack)]), stack', 'DlisModel.tla', 'MC_DlisModel_quick.cfg', 'FlagDiscipline'),
     ('DlisModel.tla', 'Announced == SumLen(view)', 'Announced == Len(items)', 'DlisModel.tla', 'MC_DlisModel_quick.cfg', 'ProgressTotalCovers'),
+    ('DataSource.tla', 'TakenFast == kind = "fast" /\\ (CheckMapping => ~crossed)', 'TakenFast == kind = "fast"', 'DataSource.tla', 'MC_DataSource_quick.cfg', 'MappingHonoured'),
     ('DataSource.tla', '(CheckShort /\\ total2 < ToIdx)', '(CheckShort /\\ total2 < ToIdx - 1)', 'DataSource.tla', 'MC_DataSource_quick.cfg', 'SecondColumn'),
     ('DataSource.tla', 'ChunkRows(start, stop) == [k \\in 1..(stop - start) |-> from + start + k - 1]',
      'ChunkRows(start, stop) == [k \\in 1..(stop - start) |-> (IF kind = "fast" THEN 0 ELSE from) + start + k - 1]', 'DataSource.tla', 'MC_DataSource_quick.cfg', 'InOrder'),
